@@ -381,8 +381,8 @@ class MailboxSet(MailboxSetInterface[MailboxData]):
 
     async def list_subscribed(self) -> ListTree:
         async with self._set_lock.read_lock():
-            mailboxes = [child for child in self._set.keys()
-                         if self._subscribed.get(child)]
+            mailboxes = [name for name, subscribed
+                         in self._subscribed.items() if subscribed]
         return ListTree(self.delimiter).update('INBOX', *mailboxes)
 
     async def list_mailboxes(self) -> ListTree:
